@@ -87,26 +87,19 @@ pub fn check_with(case: &ProgCase, info: &mut CaseInfo, cap: u64, batch: bool) -
             }
             _ => {}
         }
-        // SPI: a burst of b bytes in at most floor(b / usable) + 1 transactions
+        // SPI: a burst of b bytes in at most floor(b / usable) + 1 transactions (transactions attributed to
+        // the burst from the raw SPI log; what a command needs is not bounded by this property)
         if let Transport::Spi { buf } = cfg.transport {
             let usable = (buf as u64 / bytes_pp) * bytes_pp;
             if usable > 0 {
-                let mut allowed = 0u64;
-                for b in &obs.bursts {
-                    let bytes = b.words; // 8-bit bus: one word per byte
-                    // 4 transactions per command (CASET, RASET: cmd+args; RAMWR: cmd+empty args) = 6 in total
-                    allowed += 6 + bytes / usable + 1;
-                }
-                if obs.spi_transactions > allowed {
-                    return Err(format!(
-                        "{}: {} SPI transactions for {} bursts ({} pixel bytes, usable buffer {}), bound is {}",
-                        op_name(op),
-                        obs.spi_transactions,
-                        obs.bursts.len(),
-                        obs.bursts.iter().map(|b| b.words).sum::<u64>(),
-                        usable,
-                        allowed
-                    ));
+                for (bytes, tx) in &obs.spi_bursts {
+                    let allowed = bytes / usable + 1;
+                    if *tx > allowed {
+                        return Err(format!(
+                            "{}: a pixel burst of {} bytes took {} SPI transactions (usable buffer {} of {} bytes), bound is floor(b/usable)+1 = {}",
+                            op_name(op), bytes, tx, usable, buf, allowed
+                        ));
+                    }
                 }
                 info.label("spi-bound-checked");
             }
@@ -150,7 +143,7 @@ pub fn run(ctx: &Ctx) -> Report {
     rep.assumptions = vec![
         format!("row capacity measured from one long run per colour type: {} / {} pixels (must be >= 2 with batching)", c03::measure_row_cap_bits(16), c03::measure_row_cap_bits(18)),
         "an out-of-bounds pixel inside a run is counted as splitting it (the weaker, sound reading)".into(),
-        "per window set-up the SPI transport needs 6 transactions for the three commands; these are allowed on top of floor(b/usable)+1 per burst".into(),
+        "SPI transactions are attributed to a pixel burst from the raw log: everything after the memory-write-start command (and its own parameter write) up to the next command".into(),
     ];
     let mut sec = Section::new(
         &format!("capacity[{}]", ctx.variant),
@@ -235,6 +228,7 @@ pub fn run(ctx: &Ctx) -> Report {
                     in_bounds_pixels: 0,
                     pulls: 0,
                     spi_transactions: 0,
+                    spi_bursts: Vec::new(),
                 }
             };
             crate::exec::check_framing(&obs, true)?;
